@@ -1026,11 +1026,11 @@ def scen_compact(ctx, version, nsteps, out, big=False, perms=False):
             if single_bundle and init_shape not in ([], ['create', 'write', 'rename'], ['create', 'write', 'rename'] * 2):
                 ctx.problem('correspondence', '%s: initialisation is not write_atomic shaped: %r' % (tag, init_shape), rep)
             # ---- correspondence case for the in-place part
-            if bundle_ops and max(len(o[2]) for o in bundle_ops) > 20000:
+            if bundle_ops and sum(len(o[2]) for o in bundle_ops) + sum(len(w[-1]) for w in hist) > 40000:
                 # not the shape of any modelled in-place write (records of this stream are below 9 KB): say so instead
                 # of handing Coq a literal of that size
-                ctx.problem('correspondence', '%s: in-place raw write of %d bytes on an existing bundle file' % (
-                    tag, max(len(o[2]) for o in bundle_ops)), rep)
+                ctx.problem('correspondence', '%s: in-place raw writes of %d bytes (this store and its history) on an existing bundle file' % (
+                    tag, sum(len(o[2]) for o in bundle_ops) + sum(len(w[-1]) for w in hist)), rep)
             elif single_bundle and exc is None and bundle_ops:
                 slots = [slot_of(version, c) for c in coords[:ncoq]]
                 mb = '[' + '; '.join('(%d, %s)' % (slot_of(version, c), bytes_lit(d)) for c, d in batch) + ']'
